@@ -1,11 +1,11 @@
-\* exhaustive invariant check, quick tier: all action sequences of length <= 6
+\* exhaustive invariant check, quick tier: all action sequences of length <= 7
 SPECIFICATION Spec
 CONSTANTS
   NCtx = 3
   NThreads = 2
   SizeRes = {0, 1, 8, 15}
   Pats = {1, 2}
-  MaxLen = 6
+  MaxLen = 7
   Mode = "check"
 INVARIANTS TypeOK OneRunner ResumeExact CanariesIntact SavedInOwnStack EntryOK StacksDisjoint ReleasedOnce NoCrash
 CHECK_DEADLOCK FALSE
